@@ -12,12 +12,12 @@ RULE = ("anchor x comparison tables over a 9-row alphabet (3 alpha parts x 3 bet
 ASSUMPTIONS = ["tidytcells.tr.get_aa_sequence is the trusted data source for CDR1/CDR2 (property wording)",
                "the value at [i,j] may depend only on (row i, row j): all 81 ordered row pairs are covered, tables establish locality/order/label independence",
                "rapidfuzz cdist workers=-1 answered with one thread in the bulk spaces"]
-REQUIRED_CLASSES = {"all": ["allele-without-cdr2", "empty-cdr3", "distinct-prime-weights", "permuted-index", "duplicated-index", "rejects-non-table", "free-running-threads", "cdr3-distance-beyond-bins", "table-of-thousands-of-rows", "same-concatenation-different-split"]}
+REQUIRED_CLASSES = {"all": ["allele-without-cdr2", "empty-cdr3", "distinct-prime-weights", "permuted-index", "duplicated-index", "rejects-non-table", "free-running-threads", "cdr3-distance-beyond-bins", "table-of-thousands-of-rows", "same-concatenation-different-split", "delta-v-allele"]}
 MIN_OUTCOMES = 10
 SINGLE_THREAD_RAPIDFUZZ = True
 TIER = "quick"
 
-ALPHA = (("TRAV1-1*01", "CA"), ("TRAV5*01", "CAC"), ("TRAV40*01", ""), ("TRAV1-1*01", "C"), ("TRAV1-1*01", "CS"))
+ALPHA = (("TRAV1-1*01", "CA"), ("TRAV5*01", "CAC"), ("TRAV40*01", ""), ("TRAV1-1*01", "C"), ("TRAV1-1*01", "CS"), ("TRDV1*01", "CA"))
 BETA = (("TRBV2*01", "CS"), ("TRBV6-9*01", "CSS"), ("TRBV2*01", ""), ("TRBV2*01", "SC"), ("TRBV2*01", "C"), ("TRBV2*01", "CSC"))
 R = tuple(itertools.product(range(3), range(3)))
 CLASSES = ("AlphaCdr3Levenshtein", "BetaCdr3Levenshtein", "Cdr3Levenshtein", "AlphaCdrLevenshtein", "BetaCdrLevenshtein", "CdrLevenshtein")
@@ -292,24 +292,25 @@ def check_case(case, acc):
         # distinct rows whose in-scope loops concatenate to the same text with another split (C|SC vs CS|C, ""|C vs C|""), rows that
         # agree on the in-scope loops but differ elsewhere, exact duplicates - in every order of a 4-row table
         acc.cls("same-concatenation-different-split")
-        S = [(3, 3), (4, 4), (3, 5), (2, 4), (3, 2), (4, 3), (3, 3)]      # indices into the extended ALPHA / BETA alphabets
-        for rows in itertools.permutations(range(len(S)), 4):
-            if rows[0] > rows[3]:
-                continue
+        S = [(3, 3), (4, 4), (3, 5), (2, 4), (3, 2), (4, 3), (3, 3), (5, 0)]      # indices into the extended ALPHA / BETA alphabets; (5, .) is a delta V allele used by an alpha chain
+        tables_ = list(itertools.permutations(range(len(S)), 3)) + [r_ for r_ in itertools.permutations(range(len(S)), 4) if r_[0] < r_[3] and sum(r_) % 4 == 0]
+        for rows in tables_:
+            if 7 in rows:
+                acc.cls("delta-v-allele")
             A = table([S[i] for i in rows], "shifted")
             for cls in ("Cdr3Levenshtein", "CdrLevenshtein", "AlphaCdr3Levenshtein"):
                 m, kw = make(cls, PRIMES)
                 r = acc.call(m.calc_cdist_matrix, A, A.iloc[::-1])
                 exp = [[ref_value(cls, kw, S[a], S[b]) for b in rows[::-1]] for a in rows]
                 v = acc.call(m.calc_pdist_vector, A)
-                expv = [ref_value(cls, kw, S[rows[i]], S[rows[j]]) for i in range(4) for j in range(i + 1, 4)]
+                expv = [ref_value(cls, kw, S[rows[i]], S[rows[j]]) for i in range(len(rows)) for j in range(i + 1, len(rows))]
                 if raised(r) or r.tolist() != exp or raised(v) or v.tolist() != expv:
                     acc.fail("%s/rows-with-equal-concatenation-or-partial-duplicates" % cls, ("split1", rows, cls), exp, r if raised(r) else r.tolist())
                     return
                 acc.ok()
     elif kind == "split1":
         _, rows, cls = case
-        S = [(3, 3), (4, 4), (3, 5), (2, 4), (3, 2), (4, 3), (3, 3)]
+        S = [(3, 3), (4, 4), (3, 5), (2, 4), (3, 2), (4, 3), (3, 3), (5, 0)]
         A = table([S[i] for i in rows], "shifted")
         m, kw = make(cls, PRIMES)
         r = acc.call(m.calc_cdist_matrix, A, A.iloc[::-1])
